@@ -213,14 +213,14 @@ def _history(rng, n):
     return out, ids, pgns
 
 
-def _run_real(lines, dump_on, dump_pgns, net, prefs):
+def _run_real(lines, dump_on, dump_pgns, net, prefs, flt=None):
     """returned messages and the dump file's lines after close()"""
     fd, path = tempfile.mkstemp(prefix="msg_dump_", suffix=".jsonl", dir="/tmp")
     os.close(fd)
     os.unlink(path)
     try:
         dec = new_decoder(dump_to_file=path if dump_on else None, dump_pgns=list(dump_pgns), build_network_map=net,
-                          preferred_units=prefs)
+                          preferred_units=prefs, **{k: list(v) for k, v in (flt or {}).items()})
         ret = []
         for ln in lines:
             try:
@@ -339,7 +339,9 @@ def _check_json(w):
     from nmea2000.message import NMEA2000Message
     from nmea2000.encoder import NMEA2000Encoder
     by = bytes.fromhex(w["payload"])
-    dec = new_decoder(build_network_map=bool(w.get("net")))
+    from nmea2000.consts import PhysicalQuantities as _PQ
+    dec = new_decoder(build_network_map=bool(w.get("net")),
+                      preferred_units={getattr(_PQ, k): v for k, v in (w.get("prefs") or {}).items()})
     if w.get("claim"):
         decode(dec, *H.CLAIM, src=w.get("src", 1))
     m = decode(dec, w["pgn"], int.from_bytes(by, "little"), len(by), **{k: w[k] for k in ("src", "dst", "prio") if k in w})
@@ -384,7 +386,7 @@ def _check_dump(w):
     """w: lines, dump_pgns, net, prefs. Expected: the JSON of every returned message matching the filter, in order."""
     from nmea2000.consts import PhysicalQuantities as PQ
     prefs = {getattr(PQ, k): v for k, v in (w.get("prefs") or {}).items()}
-    dec, ret, text = _run_real(w["lines"], True, w["dump_pgns"], bool(w.get("net")), prefs)
+    dec, ret, text = _run_real(w["lines"], True, w["dump_pgns"], bool(w.get("net")), prefs, w.get("filter"))
     nums = [x for x in w["dump_pgns"] if isinstance(x, int)]
     strs = [x.lower() for x in w["dump_pgns"] if isinstance(x, str)]
     exp = []
@@ -399,8 +401,11 @@ def _check_dump(w):
     if got != exp:
         byid = bool(strs) and not nums
         k = "dump:by-id" if byid else ("dump:mixed" if strs else ("dump:by-number" if nums else "dump:empty-filter"))
+        if w.get("filter"):
+            k += ":with-pgn-filter"
         return {**base, "key": k,
-                "what": f"dump_pgns={w['dump_pgns']}: {len(ret)} messages returned, {len(exp)} match the filter, "
+                "what": (f"decoder filter {w['filter']}, " if w.get("filter") else "") +
+                        f"dump_pgns={w['dump_pgns']}: {len(ret)} messages returned, {len(exp)} match the filter, "
                         f"{len(got)} lines written" + ("" if len(got) != len(exp) else " (different content/order)")}
     return None
 
@@ -486,7 +491,9 @@ def search(ctx):
         for (p, n) in payloads(d, rng, ctx.n(1, 6), ctx.n(1, 6)):
             emit(_check_json({"kind": "json", "pgn": d["PGN"], "payload": p.to_bytes(n, "little").hex(),
                               "net": rng.random() < 0.5, "claim": rng.random() < 0.5, "src": rng.choice([1, 4, 0, 255]),
-                              "dst": rng.choice([255, 255, 0, 17, 254]), "prio": rng.choice([0, 2, 7])}))
+                              "dst": rng.choice([255, 255, 0, 17, 254]), "prio": rng.choice([0, 2, 7]),
+                              "prefs": rng.choice([{}, {}, {"TEMPERATURE": "C", "PRESSURE": "Bar", "ANGLE": "deg", "SPEED": "kts"},
+                                                   {"TEMPERATURE": "F", "PRESSURE": "PSI"}])}))
     for d, p, n in _nan_payloads(rng):
         emit(_check_json({"kind": "json", "pgn": d["PGN"], "payload": p.to_bytes(n, "little").hex()}))
     emit(_check_json(nan_witness()))
@@ -506,6 +513,23 @@ def search(ctx):
         for ln in lines:
             if ln.split(",")[2] != "60928":
                 emit(_check_entry({"kind": "entry", "line": ln}))
+    # the decoder's own include / exclude lists (by number and by id) together with dumping: the dump holds the RETURNED
+    # messages that match the dump filter - nothing of what the decoder withholds
+    for it in range(ctx.n(16, 120)):
+        lines, _ids, _pgns = _history(rng, rng.randint(10, 30))
+        lines = [ln for ln in lines if not ln.split(",")[2] == "60928" or ln.split(",")[5] == "8"]
+        _dec, ret, _t = _run_real(lines, False, [], False, {})
+        kinds = sorted({(m.PGN, m.id) for m in ret})
+        if len(kinds) < 2:
+            continue
+        a, b = rng.sample(kinds, 2)
+
+        def rc(x):
+            return "".join(ch.upper() if rng.random() < 0.5 else ch.lower() for ch in x)
+        flt = [{"exclude_pgns": [rc(a[1])]}, {"exclude_pgns": [a[0]]}, {"include_pgns": [rc(b[1])]}, {"include_pgns": [b[0], rc(a[1])]},
+               {"exclude_pgns": [rc(a[1]), b[0]]}][it % 5]
+        dump = [[], [a[0], b[0]], [rc(a[1]), rc(b[1])], [a[0], rc(b[1])]][(it // 5) % 4]
+        emit(_check_dump({"kind": "dump", "dump_pgns": dump, "net": False, "lines": lines, "prefs": {}, "filter": flt}))
     # non-ASCII text in dumped messages (STRING_LAU fields, UTF-16 and UTF-8 coded): the dump lines must be exactly
     # the JSON of the returned messages, whatever characters it contains
     uni = ["2021-01-30-20:43:21.684,6,126998,1,255,19,07,01,68,65,6C,6C,6F,0c,00,77,00,F3,00,72,00,6C,00,64,00",
